@@ -47,7 +47,7 @@ C06_MIX = dict(
 )
 C08_MIX = dict(
     mix_client=dict(update=6, load=2, load_ref=1, cadd=2, crecord=2, ctargets=1),
-    mix_between=dict(remove=4, consume=2, reset=3, bump=3, reopen=3, purge=0, crash=0, trace=3, search=0, check=1),
+    mix_between=dict(remove=4, consume=2, reset=3, bump=3, reopen=3, purge=0, crash=0, trace=3, search=0, check=1, pad=3, replace=2),
     mix_actor=dict(add=2, record=2, next=2, versions=1, trace=2, search=0, facet=0, fesearch=0, check=1),
     between=3,
 )
@@ -122,6 +122,12 @@ PROPS = {
         batches=[
             store('fault-free', 320, 3200, prop='C08', **C08_MIX),
             store('faults', 220, 2200, prop='C08', crash_mid=(1, 8), **FAULTS, **with_crash(C08_MIX, 2)),
+            # a long-lived catalogue: rows of other engines push this engine's ids across a power of ten, so that ids
+            # which are decimal prefixes of one another (1 and 10..19) meet in one run, task and target; then resets, traces, removals
+            store('ids-across-a-power-of-ten', 200, 2000, prop='C08', phases=4, max_pkgs=1, max_total=4,
+                  mix_client=dict(update=8, load=1, load_ref=0, cadd=1, crecord=2, ctargets=0),
+                  mix_between=dict(remove=2, consume=1, reset=7, bump=3, reopen=1, purge=0, crash=0, trace=3, search=0, check=1, pad=5),
+                  mix_actor=dict(add=1, record=2, next=1, versions=1, trace=1, search=0, facet=0, fesearch=0, check=1), between=4),
         ],
         wall=dict(quick=75, thorough=900),
     ),
